@@ -80,6 +80,7 @@ def rk_list(eng, st, pre):
     return st.alloc(OList(arr=arr, ln=ln, ekind='val', cls='ListContainer'), 'list')
 
 
+CALLER_GHOST = {'LE', 'loop_k', 'stopped', 'left_by_break', 'gr_stopfield', 'first_sub_ctx', 'first_sub_path'}
 USE_LOG = set()      # contracts applied at call sites since the log was last cleared (dependency closure of a proof)
 
 
@@ -200,6 +201,14 @@ class FnContract:
             eng.emit(st, '%s/call %s/requires/%s' % (eng.fnname, self.qual.split(':')[1], label), cond, kind='call-pre', tags=self.tags)
             st.assume(cond)
         out = []
+        # ghost entries that describe the CALLER's own execution (its loop-entry state, its loop counter, how its loop was left) say
+        # nothing about the callee: its clauses see a clean slate and get fresh existentials; the caller's entries are put back
+        hidden = {k: st.ghost.pop(k) for k in list(st.ghost) if k in CALLER_GHOST or k.startswith('loop_k:')}
+
+        def restore(s_):
+            for k in [k for k in s_.ghost if k in CALLER_GHOST or k.startswith('loop_k:')]:
+                del s_.ghost[k]
+            s_.ghost.update(hidden)
         for case in self.cases_for(pre):
             g = case.guard(pre)
             k = st.known(g)
@@ -235,6 +244,7 @@ class FnContract:
                 post.result = res
                 for cl in case.ensures(pre2, post):
                     s2.assume(cl[1])
+                restore(s2)
                 if not s2.infeasible():
                     s2.ghost['calls'] = s2.ghost.get('calls', ()) + ((self.qual, bound, res),)
                     out.append((s2, res))
@@ -253,9 +263,11 @@ class FnContract:
                 post.exc = ex
                 for cl in case.ensures(pre2, post):
                     s2.assume(cl[1])
+                restore(s2)
                 if not s2.infeasible():
                     s2.ghost['calls'] = s2.ghost.get('calls', ()) + ((self.qual, bound, None),)
                     out.append((s2, Raised(ex)))
+        restore(st)
         return out
 
     # ------------------------------------------------------------------ VERIFY
